@@ -30,6 +30,7 @@ def main():
     if hasattr(mod, "worker_init"):
         mod.worker_init(tier, lane, flavour)
     sanlog = os.environ.get("WV_SANLOG")
+    pre = "vg" if flavour == "vg" else "san"
     seen_sizes = {}
     from wv import sanlog as _sanlog
 
@@ -37,7 +38,8 @@ def main():
         emit({"start": idx})
         rng = random.Random("%d:%s:%s:%d" % (seed, cid, lane, idx))
         try:
-            res = mod.run_case(idx, rng, tier, lane)
+            # a lane called "vg-<base>" runs the cases of lane <base> under valgrind
+            res = mod.run_case(idx, rng, tier, lane.split("-", 1)[1] if lane.startswith("vg-") else lane)
         except Exception:
             emit({"harness_error": traceback.format_exc()[-3000:], "idx": idx})
             continue
@@ -57,7 +59,7 @@ def main():
                 c = res.setdefault("counters", {})
                 for rep in reps:
                     if rep["repo"]:
-                        c["san_repo_reports"] = c.get("san_repo_reports", 0) + 1
+                        c[pre + "_repo_reports"] = c.get(pre + "_repo_reports", 0) + 1
                         res.setdefault("violations", []).append(
                             {
                                 "mech": "sanitizer:%s:%s" % (rep["kind"], rep["frame"]),
@@ -65,8 +67,8 @@ def main():
                             }
                         )
                     else:
-                        c["san_thirdparty_reports"] = c.get("san_thirdparty_reports", 0) + 1
-            res.setdefault("counters", {})["san_cases"] = 1
+                        c[pre + "_thirdparty_reports"] = c.get(pre + "_thirdparty_reports", 0) + 1
+            res.setdefault("counters", {})[pre + "_cases"] = 1
         emit({"result": res})
     fh.close()
 
